@@ -486,6 +486,9 @@ size_t ZSTD_seekable_initAdvanced(ZSTD_seekable* zs, ZSTD_seekable_customFile sr
 size_t ZSTD_seekable_decompress(ZSTD_seekable* zs, void* dst, size_t len, unsigned long long offset)
 {
     unsigned long long const eos = zs->seekTable.entries[zs->seekTable.tableLen].dOffset;
+    if (offset >= eos) {
+        return 0;   /* nothing to read at or beyond the end of the content (eos - offset would wrap) */
+    }
     if (offset + len > eos) {
         len = eos - offset;
     }
